@@ -173,6 +173,9 @@ package lexer
 
 //@ pred ruleOK(r compiledRule) = !typeis(r.Action, include) && (r.RE != nil ==> uf("re_anchored", "Bool", r.RE))
 //@ pred rulesOK(d *StatefulDefinition) = !d.matchLongest && foralls(s, forall(i, 0, len(d.rules[s]), ruleOK(d.rules[s][i])))
+// ruleMatches: does rule r, entered with capture groups g, match at the start of text s?
+//@ spec fn ruleMatches(r compiledRule, g []string, s string) bool = ite(r.RE != nil, uf("re_matches", "Bool", r.RE, s), uf("backref_matches", "Bool", r.Pattern, g, s))
+//@ spec fn isRet(r compiledRule) bool = r.Rule == ReturnRule
 //@ pred slInv(l *StatefulLexer) = l.def != nil && len(l.stack) >= 1 && rulesOK(l.def)
 // posInv: the lexer sits at l.pos.Offset of the input text "in" given to LexString, with exact line/column, file name fn.
 //@ pred posInv(l *StatefulLexer, in string, fn string) = posOK(in, l.pos) && l.data == in[l.pos.Offset:] && l.pos.Filename == fn
@@ -189,10 +192,12 @@ package lexer
 //@   requires l.def != nil && len(l.stack) >= 1 && ruleOK(candidate)
 //@   ensures result1 == nil ==> result0 != nil && uf("re_anchored", "Bool", result0)
 //@   ensures candidate.RE != nil ==> result1 == nil && result0 == candidate.RE
+//@   ensures result1 == nil ==> foralls(s, uf("re_matches", "Bool", result0, s) == ruleMatches(candidate, l.stack[len(l.stack)-1].groups, s)) [C03]
 
 //@ func BackrefRegex [C07 C03]
 //@   trusted
 //@   ensures result1 == nil ==> result0 != nil && uf("re_anchored", "Bool", result0)
+//@   ensures result1 == nil ==> foralls(s, uf("re_matches", "Bool", result0, s) == uf("backref_matches", "Bool", input, groups, s))
 
 //@ func (ActionPop).applyAction [C07 C03]
 //@   implements Action.applyAction
@@ -230,9 +235,15 @@ package lexer
 //@   loop 1 invariant rules == l.def.rules[l.stack[len(l.stack)-1].name]
 //@   loop 1 invariant old(l.data) == "" ==> l.stack == old(l.stack) && l.pos == old(l.pos)
 //@   loop 1 decreases len(l.data), len(l.stack)
-//@   loop 2 invariant slInv(l) && match == nil && rule == nil && -1 <= rangeindex && len(l.data) > 0
+//@   loop 2 invariant slInv(l) && match == nil && rule == nil && -1 <= rangeindex && rangeindex < len(rules) && len(l.data) > 0
 //@   loop 2 invariant forall(j, 0, len(rules), ruleOK(rules[j]))
+//@   loop 2 invariant rules == l.def.rules[l.stack[len(l.stack)-1].name]
+//@   loop 2 invariant forall(j, 0, rangeindex+1, !isRet(rules[j]) && !ruleMatches(rules[j], l.stack[len(l.stack)-1].groups, l.data))
 //@   loop 2 decreases len(rules) - rangeindex
+//@   after loop 2: assert match != nil && rule != nil ==> rule == &rules[rangeindex+1] && ruleMatches(rules[rangeindex+1], l.stack[len(l.stack)-1].groups, l.data)
+//@        && forall(j, 0, rangeindex+1, !isRet(rules[j]) && !ruleMatches(rules[j], l.stack[len(l.stack)-1].groups, l.data)) [C03]
+//@   after loop 2: assert match == nil || rule == nil ==> rangeindex+1 == len(rules) || isRet(rules[rangeindex+1]) [C03]
+//@   after loop 2: assert match == nil || rule == nil ==> forall(j, 0, rangeindex+1, !isRet(rules[j]) && !ruleMatches(rules[j], l.stack[len(l.stack)-1].groups, l.data)) [C03]
 //@   loop 3 invariant 0 <= i && i % 2 == 0 && len(groups) == i / 2
 //@   loop 3 invariant i > 0 ==> groups[0] == l.data[match[0]:match[1]]
 //@   loop 3 decreases len(match) - i
